@@ -308,3 +308,73 @@ def placeholder_follow_builder(g, E, do, length):
         mid = [dict(g.ch(failing)) for _ in range(g.ch([1, 1, 2]))]
         tail = [dict(y)] + ([{"op": "getAttributeList", "uid": None}] if g.p(0.4) else [])
         do(_req(g, [c] + mid + tail, ver, bopt=g.ch([1, 1, 1, None, 2])))
+
+
+def same_values_builder(g, E, do, length):
+    """Two requesters, objects of their own carrying EQUAL attribute values (same group, same name, same application
+    information, same key bytes); then one of them changes / deletes those values on HIS object, destroys it, and the
+    other reads hers.  Whatever the storage shares between equal values, an object changes only through a successful
+    operation that addresses it (mon_c03 / mon_c15 / mon_c05)."""
+    r = g.r
+    ver = g.ch([12, 13, 14, 14, 20])
+    raw_do = do
+
+    def do(j):
+        o = raw_do(j)
+        if j.get("cmd") == "req":
+            raw_do({"cmd": "dump"})
+        return o
+    nm = lambda v: {"k": "name", "v": v, "t": 1}
+    tx = lambda v: {"k": "text", "v": v}
+    grp, grp2 = g.ch(["grpA", "grpB", "shared"]), "grpQ"
+    name = "same-%d" % r.randrange(1000)
+    app = ("ssl", "www")
+    val = hexof(16, rnd=r)
+
+    def mk(user, extra_group=None):
+        attrs = [_A("Cryptographic Algorithm", "enum", 3), _A("Cryptographic Length", "int", 128),
+                 _A("Cryptographic Usage Mask", "int", 12), _A("Name", "name", name, 0, t=1),
+                 _A("Object Group", "text", grp, 0)]
+        if extra_group:
+            attrs.append(_A("Object Group", "text", extra_group, 1))
+        attrs.append({"name": "Application Specific Information", "index": 0,
+                      "value": {"k": "appinfo", "ns": app[0], "d": app[1]}})
+        return _uid(do(_req(g, [{"op": "create", "otype": 2, "tmpl": {"tnames": 0, "attrs": attrs},
+                                 "crypto": {"k": "ok", "t": val}}], ver, user=user)))
+    A = mk("alice", grp2 if g.p(0.5) else None)
+    B = mk("bob")
+    A2 = mk("alice")
+    if A is None or B is None:
+        return
+    cur = lambda n, v: {"name": n, "index": None, "value": v}
+    if ver < 20:
+        steps = [
+            {"op": "modifyAttribute", "uid": B, "attr": {"name": "Object Group", "index": 0, "value": tx("bobs")}, "current": None, "new": None},
+            {"op": "modifyAttribute", "uid": B, "attr": {"name": "Application Specific Information", "index": 0,
+                                                          "value": {"k": "appinfo", "ns": "ssl", "d": "bob"}}, "current": None, "new": None},
+            {"op": "modifyAttribute", "uid": B, "attr": {"name": "Name", "index": 0, "value": nm("bobs-key")}, "current": None, "new": None},
+            {"op": "deleteAttribute", "uid": B, "name": "Object Group", "index": 0, "current": None, "reference": None},
+            {"op": "deleteAttribute", "uid": B, "name": "Application Specific Information", "index": 0, "current": None, "reference": None},
+        ]
+    else:
+        steps = [
+            {"op": "modifyAttribute", "uid": B, "attr": None, "current": cur("Object Group", tx(grp)), "new": cur("Object Group", tx("bobs"))},
+            {"op": "modifyAttribute", "uid": B, "attr": None,
+             "current": cur("Application Specific Information", {"k": "appinfo", "ns": app[0], "d": app[1]}),
+             "new": cur("Application Specific Information", {"k": "appinfo", "ns": "ssl", "d": "bob"})},
+            {"op": "modifyAttribute", "uid": B, "attr": None, "current": cur("Name", nm(name)), "new": cur("Name", nm("bobs-key"))},
+            {"op": "deleteAttribute", "uid": B, "name": None, "index": None, "current": cur("Object Group", tx("bobs")), "reference": None},
+            {"op": "deleteAttribute", "uid": B, "name": None, "index": None, "current": None, "reference": "Application Specific Information"},
+        ]
+    r.shuffle(steps)
+    for st in steps[:max(2, min(length, len(steps)))]:
+        do(_req(g, [dict(st)], ver, user="bob"))
+        do(_req(g, [{"op": "getAttributes", "uid": A, "names": []}], ver, user="alice"))
+        if g.p(0.3):
+            do(_req(g, [{"op": "locate", "max": None, "offset": None, "attrs": [_A("Object Group", "text", grp)]}],
+                    ver, user="alice"))
+    do(_req(g, [{"op": "destroy", "uid": B}], ver, user="bob"))
+    do(_req(g, [{"op": "getAttributes", "uid": A, "names": []}], ver, user="alice"))
+    if A2 is not None:
+        do(_req(g, [{"op": "destroy", "uid": A2}], ver, user="alice"))
+        do(_req(g, [{"op": "get", "uid": A, "format": None, "compression": False, "wrap": None}], ver, user="alice"))
